@@ -1,6 +1,6 @@
 """C11 — Every control request gets exactly one, truthful reply."""
 from ..core import BV, strip, walk, fmt_t
-from .. import lib, guards, sm as smod, terms
+from .. import census, lib, guards, sm as smod, terms
 from ..sm import reach, path, reach_in, reach_pf
 
 CD = "policy::CheckDecision"
@@ -156,7 +156,7 @@ def run(F, R):
                     ups.append((bi, p))
         if not ups:
             continue
-        guards_ = [(a, b) for (a, b, tr) in bv.bool_edges(lambda t: t[0] == "call" and t[1] == "std::cmp::PartialEq::eq" and "@StartUpdateCheck.options.source" in lib.apath(t) and "OnDemand" in lib.apath(t)) if tr]
+        guards_ = lib.equal_edges(bv, lambda t: "@StartUpdateCheck.options.source" in lib.apath(t) and "OnDemand" in lib.apath(t))
         for (bi, p) in ups:
             n_up += 1
             R.check("C11-R3", "upgrade-guarded:" + (bv.body.get("item") or bv.id.split("::")[-2]), guards_ and bv.dominated_by_edge(bi, guards_), "options.source = OnDemand only under new_options.source == OnDemand",
@@ -226,17 +226,26 @@ def run(F, R):
         R.inconclusive("C11-R4", "handle", "ControlHandle::start_update_check not found")
     else:
         R.check("C11-R4", "no-loop", not hv.sccs(), "no loop in the request path", "the request path contains a loop (can hang)")
-        frs = [t for _, t in hv.calls() if t.get("callee") == "std::ops::FromResidual::from_residual"]
-        srcs = sorted(hv.crate.types[t["substs"][1]]["s"] for t in frs if len(t.get("substs", [])) > 1)
-        ok = len(srcs) == 2 and any("SendError" in s_ for s_ in srcs) and any("Canceled" in s_ for s_ in srcs)
-        R.check("C11-R4", "two-conversions", ok, "? on send (SendError) and on the reply (Canceled)", "residual conversions: %s" % srcs)
+        # both failures end in the gone error: the return type admits no other error, so what is left to decide is that
+        # neither result is unwrapped (a panic instead of the error) — however the conversion is spelt (`?`, map_err, match)
+        ps = [p_ for p_ in census.panic_sites(hv) if p_["desc"].startswith("api:")]
+        R.check("C11-R4", "no-unwrap-on-channel-results", not ps, "no unwrap/expect in the request path: a closed channel surfaces as Err(StateMachineGone)",
+                "the request path can panic instead of returning the gone error: %s" % [p_["desc"] + "@" + p_["loc"] for p_ in ps])
+        rty = hv.lty(0)["s"]
+        R.check("C11-R4", "error-type", rty.startswith("std::result::Result<") and rty.rstrip(">").endswith("StateMachineGone"), "request path returns " + rty, "the request path returns %s, not Result<_, StateMachineGone>" % rty)
         for tn in ("mpsc::SendError", "oneshot::Canceled"):
             im = [b for b in lib.bodies(c, item="from", impl_self="state_machine::StateMachineGone", impl_trait="std::convert::From") if any(c.types[a]["s"].endswith(tn) for a in b.get("impl_trait_args", []) if isinstance(a, int))]
             ok = len(im) == 1 and BV.of(im[0]).trace_local(0)[0] == "agg"
             R.check("C11-R4", "gone:" + tn.split("::")[-1], ok, "converts to StateMachineGone", "no From<%s> for StateMachineGone" % tn)
         ret = terms.render(hv, hv.trace_local(0), W, {})
-        R.check("C11-R4", "returns-the-reply", "Ok{" in ret and "channel()" in ret, ret[:120], "the handle does not return the received reply: " + ret[:160])
+        alts_ = [terms.render(hv, a_, W, {}) for a_ in lib.alts(hv.trace_local(0))]
+        # some returned alternative carries what the reply channel's receiver delivered (Ok(..) of it, or its Result with only the error mapped)
+        ok = any(("channel().1" in a_) and (a_.startswith("Ok{") or a_.startswith("map_err(")) for a_ in alts_)
+        R.check("C11-R4", "returns-the-reply", ok, ret[:120], "the handle does not return the received reply: " + ret[:160])
         snd = [t for _, t in hv.calls() if lib.callee_is(t, "futures::SinkExt::send")]
+        nonblocking = [lib.norm(t.get("callee") or "") for _, t in hv.calls() if t.get("name") in ("try_send", "start_send", "feed", "poll_ready")]
+        R.check("C11-R4", "request-is-awaited-send", len(snd) == 1 and not nonblocking, "the request is handed over with one awaited SinkExt::send (waits for a busy machine; fails only when it is gone)",
+                "the request is not handed over with one awaited send (%d send, non-waiting operations %s): a busy but live machine can be reported gone, or the request dropped" % (len(snd), nonblocking))
         if snd:
             a = terms.render(hv, hv.trace_op(snd[0]["args"][1]), W, {})
             R.check("C11-R4", "request-carries-responder", a.startswith("StartUpdateCheck{") and "channel()" in a, a[:100], "the request sent is " + a[:120])
